@@ -7,7 +7,7 @@ Driver for C07: histories over 3 raw_vector registers and 2 buffer registers sha
 reset                                  start of a history: fresh registers
 end                                    end of a history: all destructors run, ledger reported
 ctor r default | count n x | range KIND LIST | il LIST | move s | buf b        KIND = fwd|ptr|fl|bidi|inp
-push r SRC | pop r | ins1 r pos SRC | insn r pos n SRC | insr r pos KIND LIST
+push r SRC | pop r | ins1 r pos SRC | insn r pos n SRC | insr r pos KIND LIST | insr r pos self a b
 era1 r pos | erar r l h | resize r n SRC | reserve r n | shrink r | clear r
 set r idx|it|data i x | set r front|back 0 x       store through the returned reference
 swap r s | massign r s | cmp r s | obs r           (r = s allowed)
@@ -77,6 +77,8 @@ def parseCmd (toks : List String) : Option Cmd :=
   | ["pop", r] => do let r ← parseReg NV r; pure (.op (.v r .popBack))
   | ["ins1", r, p, s] => do let r ← parseReg NV r; let p ← p.toNat?; let s ← parseSrc s; pure (.op (.v r (.insert1 p s)))
   | ["insn", r, p, n, s] => do let r ← parseReg NV r; let p ← p.toNat?; let n ← n.toNat?; let s ← parseSrc s; pure (.op (.v r (.insertN p n s)))
+  | ["insr", r, p, "self", a, b] => do
+    let r ← parseReg NV r; let p ← p.toNat?; let a ← a.toNat?; let b ← b.toNat?; pure (.op (.v r (.insertSelf p a b)))
   | ["insr", r, p, f, l] => do let r ← parseReg NV r; let p ← p.toNat?; let f ← parseFwd f; let l ← parseIntList l; pure (.op (.v r (.insertRange p l f)))
   | ["era1", r, p] => do let r ← parseReg NV r; let p ← p.toNat?; pure (.op (.v r (.erase1 p)))
   | ["erar", r, a, b] => do let r ← parseReg NV r; let a ← a.toNat?; let b ← b.toNat?; pure (.op (.v r (.eraseR a b)))
@@ -124,7 +126,7 @@ def showRet : Option Nat → String
   | none => "ret=-"
   | some n => s!"ret={n}"
 
-def tail (h : Heap) : String := s!"live={h.liveCount} std=ok alloc=ok"
+def tail (h : Heap) (std : String := "ok") : String := s!"live={h.liveCount} std={std} alloc=ok"
 
 /-- which registers an operation touches (printed after it) -/
 def touched : Op → List Nat × List Nat
@@ -160,9 +162,28 @@ def geo (old new : RV) : VOp → String
   | .shrink => "-"
   | _ => b01 (new.cap == old.cap || decide (2 * old.cap ≤ new.cap))
 
+/-- `insert(pos, begin()+a, begin()+b)` outside the specification (the range does not lie in front of `pos`): the iterators are
+still valid, the model says what the code does (it depends on the capacity); the specification state adopts the result -/
+def runNoSpec (st : St) (sst : Spec.SSt) (r pos a b : Nat) : St × Spec.SSt × String :=
+  let l := sst.vec r
+  if ¬ (a ≤ b ∧ b ≤ l.length ∧ pos ≤ l.length) then (st, sst, "invalid") else
+  let vo := VOp.insertSelf pos a b
+  match step g st (.v r vo) with
+  | .error _ => (st, sst, "invalid")      -- source and destination of the uninitialized_copy overlap
+  | .ok (st', ret) =>
+    match toList st'.heap (st'.vec r) with
+    | .error f => (st, sst, "fault:" ++ f.name)
+    | .ok l' =>
+      (st', ⟨upd sst.vec r l', sst.buf⟩,
+        showRet ret ++ " " ++ showVec st'.heap r (st'.vec r) ++ " reok=" ++ reok (st.vec r) (st'.vec r) vo ++
+          " cpok=" ++ cpok (st.vec r) (st'.vec r) vo ++ " geo=" ++ geo (st.vec r) (st'.vec r) vo ++ " " ++ tail st'.heap "na")
+
 def runOp (st : St) (sst : Spec.SSt) (o : Op) : St × Spec.SSt × String :=
   match Spec.sstep sst o with
-  | none => (st, sst, "invalid")
+  | none =>
+    match o with
+    | .v r (.insertSelf pos a b) => runNoSpec st sst r pos a b
+    | _ => (st, sst, "invalid")
   | some (sst', sret) =>
     match step g st o with
     | .error f => (st, sst, "fault:" ++ f.name)
